@@ -393,6 +393,34 @@ class BuiltinMixin:
         raise Unsupported("indexing into an opaque JSON value")
 
     # ==========================================================================================
+    # strings
+    # ==========================================================================================
+    def str_index(self, sv, idx, st, line=None):
+        n = z3.Length(sv.t)
+        st.raise_if(z3.Or(idx.t >= n, idx.t < -n), "IndexError", line)
+        i = idx.t if (st.spec and not _neg_const(idx.t)) or _nonneg_const(idx.t) else self.norm_index(idx.t, n)
+        return Val(STR, z3.SubString(sv.t, i, 1))
+
+    def str_slice(self, sv, lo, hi, step, st):
+        if step is not None and step.ty != NONE:
+            raise Unsupported("string slice with step")
+        n = z3.Length(sv.t)
+        a = self.clamp_slice(lo, n, z3.IntVal(0))
+        b = self.clamp_slice(hi, n, n)
+        return Val(STR, z3.SubString(sv.t, a, z3.If(b > a, b - a, 0)))
+
+    def as_str(self, v, st, line=None):
+        """A value used where a str is required: JSON values must be strings (TypeError otherwise)."""
+        if v.ty == STR:
+            return v
+        if v.ty == JV:
+            st.raise_if(z3.Not(jv_is_str(v.t)), "TypeError", line)
+            return Val(STR, jv_str(v.t))
+        if v.ty.name == "Opt":
+            return self.as_str(self.unopt(v, st, line), st, line)
+        raise Unsupported(f"{v.ty} used as str")
+
+    # ==========================================================================================
     # attributes of built-in values
     # ==========================================================================================
     def builtin_attr(self, v, attr, st, node):
@@ -604,6 +632,34 @@ class BuiltinMixin:
             return Val(FLOAT, z3.ToReal(v.t), exact_int=v.t)
         raise Unsupported(f"float({v.ty})")
 
+    # -- regular expressions in specifications ---------------------------------------------------------
+    def x_bi_re_search(self, args, kw, st, node):
+        p, f, text = args
+        text = self.as_str(text, st)
+        fn = z3.Function("re_search", S, I, S, B)
+        return Val(BOOL, fn(p.t, f.t, text.t))
+
+    def x_bi_url_part(self, args, kw, st, node):
+        name, url = args
+        fn = z3.Function("url_" + name.t.as_string(), S, S)
+        return Val(STR, fn(self.as_str(url, st).t))
+
+    def x_bi_dict_without(self, args, kw, st, node):
+        """Value of a dict with some keys removed (specification only)."""
+        d = args[0]
+        vty = self.dict_vty(d) or JV
+        os_ = opt_sort(sort_of(vty))
+        m = self.dict_map(d, st)
+        for k in args[1:]:
+            m = z3.Store(m, self.as_key(k), os_.none)
+        return Val(d.ty, z3.IntVal(0), frozen=m)
+
+    def x_bi_jv_list(self, args, kw, st, node):
+        """The list stored as a JSON value (inverse of the embedding used when it was stored)."""
+        v = args[0]
+        inv = z3.Function("jv_to_Int", JVSort, I)
+        return Val(ListT(STR), inv(v.t))
+
     # -- millisecond alignment (specification vocabulary; single modulus keeps the arithmetic simple) ----
     def x_bi_ms_aligned(self, args, kw, st, node):
         v = args[0]
@@ -637,6 +693,13 @@ class BuiltinMixin:
         m, frm, to = args
         j = z3.Int("j!rm")
         return Val(Ty("IntMap"), self.def_array(st, j, z3.If(z3.Select(m.t, j) == frm.t, to.t, z3.Select(m.t, j))))
+
+    def x_bi_last_filter(self, args, kw, st, node):
+        """Ghost: the most recent filter-comprehension result of the function (a temporary without a name)."""
+        v = st.ghost.get("g:lastfilter")
+        if v is None:
+            raise Unsupported("last_filter(): no filter comprehension was evaluated")
+        return v
 
     def x_bi_filter_sel(self, args, kw, st, node):
         """Ghost: source index of the j-th element of a filter-comprehension result."""
@@ -915,6 +978,8 @@ class BuiltinMixin:
             st.raise_if(z3.BoolVal(True), "AttributeError", line)
             return NONE_VAL
         m = getattr(self, f"m_{ty.name}_{name}", None)
+        if m is None and ty.name == "Obj":
+            fty = None
         if m is None:
             raise Unsupported(f"method {ty}.{name}")
         return m(recv, args, kw, st, node)
@@ -960,6 +1025,120 @@ class BuiltinMixin:
 
     def m_Dict_copy(self, recv, args, kw, st, node):
         return self.dict_copy(recv, st)
+
+    def dict_values_list(self, d, st):
+        desc = self.dict_iter_desc(d, st)
+        vty = self.dict_vty(d) or JV
+        os_ = opt_sort(sort_of(vty))
+        j = z3.Int("j!dv")
+        m0 = self.dict_map(d, st)
+        items = self.def_array(st, j, os_.val(z3.Select(m0, z3.Select(desc.keyseq, j))))
+        out = self.new_list(vty, st, desc.n, items)
+        # the same fact from the key side (gives e-matching the term items[pos(k)] for a present key k)
+        kq = fresh("qk", S)
+        st.assume(z3.ForAll([kq], z3.Implies(os_.is_some(z3.Select(m0, kq)),
+                                             z3.Select(items, desc.pos(kq)) == os_.val(z3.Select(m0, kq))),
+                            patterns=[z3.Select(m0, kq)]))
+        out.x["keyseq"] = desc.keyseq
+        out.x["keypos"] = desc.pos
+        return out
+
+    def m_Dict_values(self, recv, args, kw, st, node):
+        return self.dict_values_list(recv, st)
+
+    def m_Dict_keys(self, recv, args, kw, st, node):
+        desc = self.dict_iter_desc(recv, st)
+        return self.new_list(STR, st, desc.n, desc.keyseq)
+
+    def x_re_compile(self, args, kw, st, node):
+        pat = self.as_str(args[0], st)
+        flags = args[1] if len(args) > 1 else kw.get("flags", mk_int(0))
+        ref = st.new_ref()
+        st.write("re.Pattern.pattern", S, ref, pat.t)
+        st.write("re.Pattern.flags", I, ref, flags.t)
+        self.trusted_used.add("T-RE: re.compile/search/sub are uninterpreted functions of (pattern, flags, text)")
+        return Val(ObjT("re.Pattern"), ref)
+
+    def _re_args(self, recv, st):
+        return st.read("re.Pattern.pattern", S, recv.t), st.read("re.Pattern.flags", I, recv.t)
+
+    def m_Obj_get(self, recv, args, kw, st, node):
+        """dict.get on a record object (constant key)."""
+        cls = recv.ty.args[0]
+        cd = CLASSDEFS.get(cls)
+        key = args[0]
+        if not (cd and cd.get("record") and key.ty == STR and z3.is_string_value(key.t)):
+            raise Unsupported(f"get on {recv.ty}")
+        k = key.t.as_string()
+        default = args[1] if len(args) > 1 else NONE_VAL
+        if k not in cd["fields"]:
+            return default
+        fty = parse_type(cd["fields"][k])
+        val = from_sort_term(st.read(f"{cls}.{k}", sort_of(fty), recv.t), fty)
+        has = st.read(f"{cls}.{k}!has", B, recv.t) if self.under_construction(recv, st) else z3.BoolVal(True)
+        if z3.is_true(has):
+            return val
+        return self.merge_vals(has, val, default)
+
+    def m_Obj_search(self, recv, args, kw, st, node):
+        if recv.ty.args[0] != "re.Pattern":
+            raise Unsupported("search on " + str(recv.ty))
+        text = self.as_str(args[0], st, getattr(node, "lineno", None))
+        p, f = self._re_args(recv, st)
+        fn = z3.Function("re_search", S, I, S, B)
+        return Val(OptT(ANYREF), z3.If(fn(p, f, text.t), 1, 0))
+
+    def m_Obj_sub(self, recv, args, kw, st, node):
+        if recv.ty.args[0] != "re.Pattern":
+            raise Unsupported("sub on " + str(recv.ty))
+        repl = self.as_str(args[0], st)
+        text = self.as_str(args[1], st, getattr(node, "lineno", None))
+        p, f = self._re_args(recv, st)
+        fn = z3.Function("re_sub", S, I, S, S, S)
+        return Val(STR, fn(p, f, repl.t, text.t))
+
+    def x_urllib_parse_urlparse(self, args, kw, st, node):
+        url = self.as_str(args[0], st, getattr(node, "lineno", None))
+        self.trusted_used.add("T-URL: urllib.parse.urlparse components are uninterpreted functions of the url")
+        ref = st.new_ref()
+        for f in ("scheme", "netloc", "path", "params", "query", "fragment"):
+            fn = z3.Function("url_" + f, S, S)
+            st.write("urllib.parse.ParseResult." + f, S, ref, fn(url.t))
+        return Val(ObjT("urllib.parse.ParseResult"), ref)
+
+    def x_functools_reduce(self, args, kw, st, node):
+        """reduce(f, xs, init): a left fold, executed as the loop `acc = init; for x in xs: acc = f(acc, x)`
+        cut by the invariant the contract gives under the loop key "reduce"."""
+        f, xs, init = args
+        lc, _ = None, None
+        c = self.contract_of(st.frame.qualname)
+        lc = (c or {}).get("loops", {}).get("reduce")
+        s_env = st.env
+        st.env = dict(st.env)
+        st.env["__f"] = f
+        st.env["__xs"] = xs
+        st.env["acc"] = init
+        loop = ast.parse("for x in __xs:\n    acc = __f(acc, x)").body[0]
+        ast.fix_missing_locations(loop)
+        try:
+            if lc is None:
+                raise Unsupported("reduce without a 'reduce' loop invariant")
+            desc = self.iter_desc_val(xs, st)
+            outs = self.cut_loop(loop, st, lc, "reduce", desc=desc)
+            normal = [o for o in outs if o.status == "run"]
+            for o in outs:
+                if o.status == "raise":
+                    o.env = s_env
+                    st.spawned.append(o)
+            if len(normal) != 1:
+                raise Unsupported("reduce: unexpected control flow")
+            o = normal[0]
+            st.pc, st.heap, st.alloc_base, st.alloc_off, st.ghost = o.pc, o.heap, o.alloc_base, o.alloc_off, o.ghost
+            for gname in lc.get("ghost", {}):
+                s_env[gname] = o.env[gname]
+            return o.env["acc"]
+        finally:
+            st.env = s_env
 
     def m_timedelta_total_seconds(self, recv, args, kw, st, node):
         return Val(FLOAT, z3.ToReal(recv.t) / US, exact_us=recv.t)
